@@ -485,6 +485,9 @@ class SymReal:
     def conjugate(self):
         return self
 
+    def item(self):
+        return self
+
     def is_integer(self):
         raise Unmodelled("is_integer of symbolic real")
 
